@@ -131,8 +131,7 @@ def run_pubstress(chk, pid, runner, tier, seed, workdir, log, only_key):
     e = dict(chk.env())
     e["GORACE"] = "halt_on_error=0 exitcode=0"
     import subprocess
-    r = subprocess.run([exe] + args + ["-out", out], cwd=workdir, timeout=runner.get("timeout", 3000), env=e, text=True,
-                       stdout=subprocess.PIPE, stderr=subprocess.PIPE)
+    r = chk.run([exe] + args + ["-out", out], cwd=workdir, timeout=runner.get("timeout", 3000), env=e)
     log.append(("stress " + mode, r.returncode, (r.stdout[-500:] + r.stderr[-3000:])))
     race = "WARNING: DATA RACE" in r.stderr
     rep = None
